@@ -146,6 +146,12 @@ func genObj(r *Rand, depth int, ops bool) pdf.Object {
 		if r.P(1, 4) {
 			return pdf.Array(nil)
 		}
+		if r.P(1, 4) {
+			return pdf.Dict(nil)
+		}
+		if r.P(1, 6) {
+			return Pick(r, []pdf.Object{pdf.String(""), pdf.String(nil), pdf.String([]byte{})})
+		}
 		return genInt(r)
 	case 9, 10, 11:
 		n := r.Intn(6)
@@ -250,8 +256,81 @@ func implParseLine(data []byte) string {
 	return fmt.Sprintf("ok %s %d", wireNorm(o), int64(len(data))-pos)
 }
 
-// oracleRoundTrip: parse("[" + Format(opt, objs...) + "]") == norm(objs)
+// c01Norm is the property's reading of a value: equal = pdf.Equal modulo nil/empty strings (both
+// denote "()"; the core scanner returns String(nil) for "()" and "<>" by design), with a typed nil
+// Array or Dict being the null object and nil dictionary entries being absent on the input side
+// (`input`).  On the parsed side the scanner must return null for `null`; nil entries of a parsed
+// dictionary (the scanner keeps `/K null` as a nil entry) are absent as well.
+func c01Norm(o pdf.Object, input bool) pdf.Object {
+	if o == nil {
+		return nil
+	}
+	switch x := o.(type) {
+	case pdf.Array:
+		if x == nil && input {
+			return nil
+		}
+		a := make(pdf.Array, len(x))
+		for i, e := range x {
+			a[i] = c01Norm(e, input)
+		}
+		return a
+	case pdf.Dict:
+		if x == nil && input {
+			return nil
+		}
+		d := pdf.Dict{}
+		for k, v := range x {
+			if v = c01Norm(v, input); v != nil {
+				d[k] = v
+			}
+		}
+		return d
+	case pdf.String:
+		if x == nil {
+			return pdf.String{} // on both sides: String(nil) and String("") are the same value
+		}
+	}
+	return o
+}
+
+// oracleRoundTrip: parse("[" + Format(opt, objs...) + "]") equals objs under pdf.Equal, after
+// the identifications of c01Norm.
 func oracleRoundTrip(optTag string, objs pdf.Array) (bool, string) {
+	ok, _, d := oracleRoundTripK(optTag, objs)
+	return ok, d
+}
+
+// oracleRoundTripK also names the class of the failure.
+func oracleRoundTripK(optTag string, objs pdf.Array) (bool, string, string) {
+	ok, d := oracleRoundTripParse(optTag, objs)
+	if !ok {
+		return false, "roundtrip", d
+	}
+	return oracleRoundTripValue(optTag, objs)
+}
+
+func oracleRoundTripValue(optTag string, objs pdf.Array) (bool, string, string) {
+	var buf bytes.Buffer
+	buf.WriteByte('[')
+	pdf.Format(&buf, optByTag(optTag), objs...)
+	buf.WriteByte(']')
+	got, _, _ := parseOne(buf.Bytes())
+	want := c01Norm(objs, true)
+	gotN := c01Norm(got, false)
+	if pdf.Equal(gotN, want) {
+		return true, "", ""
+	}
+	desc := fmt.Sprintf("value differs: %q parsed as %s, want %s", truncate(buf.String()), wireNorm(gotN), wireNorm(want))
+	if objEqual(normObj(got), normObj(objs)) {
+		// equal once a typed nil Dict is taken for an empty dictionary (the former oracle)
+		return false, "nil-dict-written-as-empty", desc + " (a typed nil Dict is written as <<>>, not as null)"
+	}
+	return false, "roundtrip", desc
+}
+
+// oracleRoundTripParse: the text is deterministic, parses, and the parser consumes all of it
+func oracleRoundTripParse(optTag string, objs pdf.Array) (bool, string) {
 	opt := optByTag(optTag)
 	var buf bytes.Buffer
 	buf.WriteByte('[')
@@ -273,10 +352,7 @@ func oracleRoundTrip(optTag string, objs pdf.Array) (bool, string) {
 	if pos != int64(buf.Len()) {
 		return false, fmt.Sprintf("parser stopped at %d of %d on %q", pos, buf.Len(), truncate(buf.String()))
 	}
-	want := normObj(objs)
-	if !objEqual(normObj(got), want) {
-		return false, fmt.Sprintf("value differs: %q parsed as %s, want %s", truncate(buf.String()), wireNorm(got), wireNorm(want))
-	}
+	_ = got
 	return true, ""
 }
 
@@ -299,6 +375,7 @@ func replayC01RoundTrip(input string) (bool, string) {
 // ---- run ----
 
 func runC01(c *Ctx) {
+	wireNilDict = true
 	r := c.R
 	nTrees := 4000
 	maxStr := 3
@@ -346,9 +423,9 @@ func runC01(c *Ctx) {
 			_ = ops
 			return // operators are read back by the content scanner (C15)
 		}
-		ok, d := oracleRoundTrip(tag, objs)
+		ok, vkey, d := oracleRoundTripK(tag, objs)
 		if !ok {
-			c.Violate("roundtrip", "roundtrip", d, key)
+			c.Violate("roundtrip", vkey, d, key)
 		}
 		// the model must read the implementation's bytes the same way
 		wrapped := append(append([]byte{'['}, out...), ']')
@@ -366,6 +443,9 @@ func runC01(c *Ctx) {
 		{nil},
 		{pdf.Array(nil)},
 		{pdf.Dict(nil)},
+		{pdf.Array{pdf.Dict(nil), pdf.Array(nil)}, pdf.Dict{"A": pdf.Dict(nil), "B": pdf.Array(nil), "C": pdf.Integer(1)}},
+		{pdf.Integer(1), pdf.Dict(nil), pdf.Integer(2), pdf.Dict(nil), pdf.Name("N")},
+		{pdf.String(""), pdf.String(nil), pdf.String([]byte{}), pdf.Array{pdf.String("")}, pdf.Dict{"V": pdf.String("")}},
 		{pdf.Integer(1), pdf.Integer(2), pdf.Name("R")},
 		{pdf.Integer(1), pdf.Integer(2), pdf.Integer(3), pdf.NewReference(4, 5)},
 		{pdf.NewReference(1, 0), pdf.NewReference(2, 0)},
@@ -398,7 +478,7 @@ func runC01(c *Ctx) {
 			check(o.tag, objs)
 		}
 	}
-	c.Sample("corpus: " + wire(corpus[24]))
+	c.Sample("corpus: " + wire(corpus[27]))
 
 	// 2. random trees
 	for i := 0; i < nTrees; i++ {
